@@ -44,13 +44,13 @@ theorem ioToy_ok : IOok ioToy := by
   · exact parseInt?_intStr x
 
 def g0 : Grid Int :=
-  { name := "My Grid".toList, comment := [], nrows := 2, ncols := 3, xll := -5, yll := 7, csz := 2,
+  { name := "My Grid".toList, comment := "two\nlines".toList, nrows := 2, ncols := 3, xll := -5, yll := 7, csz := 2,
     dtype := ⟨.int, 8⟩, nodata := 18446744073709551615, data := [[4611686018427387905, 9223372036854775808, 0], [1, 2, 3]] }
 
 def g1 : Grid Int := { g0 with dtype := ⟨.float, 4⟩, nodata := 2143289344, data := [[1, 2139095040, 4290772992], [1, 2, 3]] }
 
 theorem g0_ok : GridOK ioToy g0 :=
-  ⟨⟨by decide, by decide, by decide, by decide, by decide, by decide, fun a v h => by simp [lookup, g0] at h,
+  ⟨⟨by decide, by decide, by decide, by decide, fun a v h => by simp [lookup, g0] at h,
     fun h => absurd h (by decide)⟩, by decide, by decide, by decide, by decide⟩
 
 
